@@ -9,12 +9,43 @@ kernel-evaluated example: a concrete accepted document and its violating transfo
 
 Rules whose enforcement in the parser is narrower than the wording carry that side condition in the predicate; the
 harness runs the real parser on the excluded instances (evidence key `exemptions`).
+
+Rule → theorem
+  missing '# EOF' / content after it (repeated EOF)  missing_eof, content_after_eof
+  blank lines                                        blank_line
+  repeated or late metadata                          repeated_metadata, late_metadata
+  interleaved or clashing families                   interleaved_families, clashing_families
+  unit not suffixing the name / on info, stateset    unit_not_suffix, unit_on_info_or_stateset
+  histogram groups: no +Inf, bounds not increasing,  hist_no_inf_partial, hist_bounds_not_increasing_partial,
+    counts not cumulative, _count ≠ +Inf bucket        hist_counts_not_cumulative_partial, hist_count_ne_inf_partial
+    counts not integral                                count_not_integral
+  NaN or negative counter-like samples               counter_like_nan, counter_like_negative
+  info values ≠ 1                                    info_not_one
+  stateset values ∉ {0,1} / without the state label  stateset_bad_value, stateset_no_label
+  quantiles outside [0,1]                            quantile_out_of_range
+  timestamps backwards / on part of a group          timestamp_backwards, timestamp_partial
+  duplicate label names                              duplicate_label_term, duplicate_label   (ParseCore.parseLabels)
+  exemplars on ineligible samples / over 128 chars   exemplar_ineligible, exemplar_too_long  (the latter on remFinish)
+
+Not proved / partial, and why
+* hist_*_partial: the rule is proved on the sample list `_check_histogram` receives (any position, any other groups);
+  missing: the composition with the line fold (which lines reach the list — every one except repeats of a series at
+  an unchanged timestamp, `groupStep_ok`), so no `HistX (lines) → (assemble lines).isError` statement.  The two
+  `do_checks` rules additionally assume `t == t` for the timestamps in the list (floats: never NaN).
+* timestamp_backwards: consecutive samples only (the parser compares each sample with its predecessor; a statement
+  about non-adjacent samples of a group needs transitivity of the float order, a fact about IEEE not about the code).
+* families without a `# TYPE` line (typ `unknown` opened by a sample or by HELP/UNIT only) are outside `InBlock`;
+  "Invalid metric grouping" (a group resumed after another one) is not among the rules of the statement and has no
+  theorem.  Both are exercised by the harness.
+* exemplar_too_long and duplicate_label are statements about line tokenisation (`remFinish`, `parseLabels`), not
+  about `assemble`: at the line level such a line is `.sample _ (.error .valueError)`.
 -/
 import PromVerif.Spec.OMRules
 import PromVerif.Lemmas.OMChecks
 import PromVerif.Lemmas.OMDoom
 import PromVerif.Lemmas.OMGroup
 import PromVerif.Lemmas.OMLabels
+import PromVerif.Lemmas.OMHist
 import PromVerif.Lemmas.OMToy
 
 namespace PromVerif.Props.C15
@@ -724,5 +755,146 @@ theorem duplicate_label (legacy om : Bool) (s : Str) (ls : List (Str × Str)) (h
 example : isError (parseDoc "a{x=\"1\",y=\"2\"} 1\n# EOF\n") = false := by decide
 example : errOf (parseDoc "a{x=\"1\",x=\"2\"} 1\n# EOF\n") = some .valueError := by decide
 example : errOf (parseDoc "# TYPE a counter\na_total 1 # {x=\"1\",x=\"1\"} 1\n# EOF\n") = some .valueError := by decide
+
+/-! ## histogram and gauge-histogram groups (`_check_histogram` on the family's sample list)
+
+The sample list is the one `build_metric` receives for a family whose type is histogram or gaugehistogram
+(`flush_runs_check_histogram`).  `…_partial`: what is proved is the rule on that list; the step from the family's
+sample LINES to the list (every line is appended in order unless it repeats a series of the current group at an
+unchanged timestamp — `groupStep_ok`) is not composed into a document-level statement; the duplicate-dropping is the
+exemption recorded in the evidence. -/
+
+/-- for a histogram / gaugehistogram family a failing `_check_histogram` fails `build_metric` -/
+theorem flush_runs_check_histogram (P : Params) (g : Glob) (h : Hdr) (samples : List OSample) (n t : Str)
+    (hn : h.name = some n) (ht : h.typ = some t) (hh : t = cs!"histogram" ∨ t = cs!"gaugehistogram")
+    (he : isError (checkHistogram P samples n) = true) : isError (flush P g h samples) = true := by
+  refine flush_fails P g h samples n hn (if histTypes.contains (h.typ.getD tUnknown) then checkHistogram P samples n else .ok ())
+    (by simp [buildChecks]) ?_
+  have : histTypes.contains (h.typ.getD tUnknown) = true := by
+    rw [ht]; rcases hh with rfl | rfl <;> decide
+  rw [if_pos this]; exact he
+
+/-- bounds not strictly increasing between consecutive bucket lines of one group: rejected — any position in the
+list, any other groups before and after -/
+theorem hist_bounds_not_increasing_partial (P : Params) (n : Str) (samples : List OSample) (h : HistBoundsNotIncreasing P n samples) :
+    isError (checkHistogram P samples n) = true := by
+  obtain ⟨pre, s1, s2, post, b1, b2, g1, g2, rfl, hb1, hb2, ⟨hsg, hst⟩, hle⟩ := h
+  apply hist_of_suffix
+  intro h0
+  rw [histFinish_cons]
+  cases hs1 : histStep P n h0 s1 with
+  | error e => rfl
+  | ok h1 =>
+    dsimp only
+    obtain ⟨e1, e2, e3, _⟩ := histStep_bucket_ok P n h0 h1 s1 b1 g1 hb1 hs1
+    rw [histFinish_cons]
+    have := histStep_bucket_order_fails P n h1 s2 b2 b1 g2 g1 hb2 e2 hsg (by rw [e3]; exact hst) e1 hle
+    cases hs2 : histStep P n h1 s2 with
+    | error e => rfl
+    | ok h2 => rw [hs2] at this; cases this
+
+example : isError (parseDoc "# TYPE a histogram\na_bucket{le=\"1\"} 1\na_bucket{le=\"2\"} 1\na_bucket{le=\"+Inf\"} 2\n# EOF\n") = false := by decide
+example : errOf (parseDoc "# TYPE a histogram\na_bucket{le=\"2\"} 1\na_bucket{le=\"1\"} 1\na_bucket{le=\"+Inf\"} 2\n# EOF\n") = some .valueError := by decide
+example : errOf (parseDoc "# TYPE a histogram\na_bucket{le=\"1\"} 1\na_bucket{le=\"1e0\"} 1\na_bucket{le=\"+Inf\"} 2\n# EOF\n") = some .valueError := by decide
+
+/-- counts not cumulative between consecutive bucket lines of one group: rejected -/
+theorem hist_counts_not_cumulative_partial (P : Params) (n : Str) (samples : List OSample) (h : HistCountsNotCumulative P n samples) :
+    isError (checkHistogram P samples n) = true := by
+  obtain ⟨pre, s1, s2, post, b1, b2, g1, g2, v1, v2, rfl, hb1, hb2, ⟨hsg, hst⟩, hv1, hv2, hlt⟩ := h
+  apply hist_of_suffix
+  intro h0
+  rw [histFinish_cons]
+  cases hs1 : histStep P n h0 s1 with
+  | error e => rfl
+  | ok h1 =>
+    dsimp only
+    obtain ⟨_, e2, e3, e4⟩ := histStep_bucket_ok P n h0 h1 s1 b1 g1 hb1 hs1
+    rw [histFinish_cons]
+    have := histStep_bucket_value_fails P n h1 s2 b2 g2 g1 v2 v1 hb2 e2 hsg (by rw [e3]; exact hst) (by rw [e4]; exact hv1) hv2 hlt
+    cases hs2 : histStep P n h1 s2 with
+    | error e => rfl
+    | ok h2 => rw [hs2] at this; cases this
+
+example : errOf (parseDoc "# TYPE a histogram\na_bucket{le=\"1\"} 3\na_bucket{le=\"+Inf\"} 2\n# EOF\n") = some .valueError := by decide
+
+/-- a group whose last bucket line is not `+Inf` is rejected (the group closed by the end of the family or by a
+sample of another group / timestamp; its `_count`/`_sum`/`_created` lines may follow the buckets) -/
+theorem hist_no_inf_partial (P : Params) (n : Str) (samples : List OSample) (h : HistNoInf P n samples)
+    (hrefl : ∀ s ∈ samples, tsEq P s.ts s.ts = true) : isError (checkHistogram P samples n) = true := by
+  obtain ⟨pre, sb, tail, post, b, g, rfl, hb, hinf, htail, hend⟩ := h
+  have hrefl := hrefl sb (by simp)
+  apply hist_of_suffix
+  intro h0
+  rw [histFinish_cons]
+  cases hs1 : histStep P n h0 sb with
+  | error e => rfl
+  | ok h1 =>
+    dsimp only
+    obtain ⟨e1, e2, e3, _⟩ := histStep_bucket_ok P n h0 h1 sb b g hb hs1
+    refine hist_tail P n g b tail post h1 g e2 rfl e1 (by rw [e3]; exact hrefl) (fun s hs => by rw [e3]; exact htail s hs) ?_
+    intro h' hb' ht' ⟨l, hg', hl'⟩
+    exact group_end_fails P n h' g l post hg' hl' (by rw [ht', e3]; exact hend) (doChecks_no_inf P h' b hb' hinf)
+
+example : errOf (parseDoc "# TYPE a histogram\na_bucket{le=\"1\"} 1\na_bucket{le=\"2\"} 1\n# EOF\n") = some .valueError := by decide
+example : errOf (parseDoc "# TYPE a histogram\na_bucket{le=\"1\",x=\"y\"} 1\na_bucket{le=\"1\"} 1\na_bucket{le=\"+Inf\"} 1\n# EOF\n") = some .valueError := by decide
+
+/-- a `_count` / `_gcount` that differs from the count of the group's last bucket line is rejected -/
+theorem hist_count_ne_inf_partial (P : Params) (n : Str) (samples : List OSample) (h : HistCountNeInf P n samples)
+    (hrefl : ∀ s ∈ samples, tsEq P s.ts s.ts = true) : isError (checkHistogram P samples n) = true := by
+  obtain ⟨pre, sb, sc, post, b, g, v, c, rfl, hb, hname, hin, hv, hc, hne, hend⟩ := h
+  have hrefl := hrefl sb (by simp)
+  apply hist_of_suffix
+  intro h0
+  rw [histFinish_cons]
+  cases hs1 : histStep P n h0 sb with
+  | error e => rfl
+  | ok h1 =>
+    dsimp only
+    obtain ⟨e1, e2, e3, e4⟩ := histStep_bucket_ok P n h0 h1 sb b g hb hs1
+    rw [histFinish_cons]
+    cases hs2 : histStep P n h1 sc with
+    | error e => rfl
+    | ok h2 =>
+      dsimp only
+      obtain ⟨f1, f2, f3, l2, f4, f5⟩ := histStep_inGroup P n h1 h2 sc g g (by rw [e3]; exact hin) e2 rfl (by rw [e3]; exact hrefl) hs2
+      have hcount : h2.count = some c := by
+        -- the `_count` branch stores the value
+        obtain ⟨hnb, hts, ⟨l, hgl, hle⟩, _⟩ := hin
+        unfold histStep at hs2
+        rw [groupForSample_hist n sc l hgl] at hs2
+        dsimp only at hs2
+        have hsuf : sc.name.drop n.length = sCount ∨ sc.name.drop n.length = sGcount := by
+          rcases hname with e | e
+          · left; rw [e]; simp [sCount]
+          · right; rw [e]; simp [sGcount]
+        have c0 : ¬ (sc.name.drop n.length).isEmpty = true := by
+          rcases hsuf with e | e <;> rw [e] <;> decide
+        rw [if_neg c0] at hs2
+        rw [histReset_same P h1 l g sc.ts e2 hle (by rw [hts, e3]; exact hrefl)] at hs2
+        dsimp only at hs2
+        have c1 : ¬ (sc.name.drop n.length == sBucket) = true := by
+          rcases hsuf with e | e <;> rw [e] <;> decide
+        have c2 : (sc.name.drop n.length == sCount || sc.name.drop n.length == sGcount) = true := by
+          rcases hsuf with e | e <;> rw [e] <;> decide
+        rw [if_neg c1, if_pos c2] at hs2
+        obtain rfl := Except.ok.inj hs2
+        exact hc
+      exact group_end_fails P n h2 g l2 post f4 f5 (by rw [f3, e3]; exact hend)
+        (doChecks_count_ne P h2 v c (by rw [f2, e4]; exact hv) hcount hne)
+
+example : isError (parseDoc "# TYPE a histogram\na_bucket{le=\"+Inf\"} 2\na_count 2\na_sum 1\n# EOF\n") = false := by decide
+example : errOf (parseDoc "# TYPE a histogram\na_bucket{le=\"+Inf\"} 2\na_count 3\na_sum 1\n# EOF\n") = some .valueError := by decide
+example : errOf (parseDoc "# TYPE a gaugehistogram\na_bucket{le=\"+Inf\"} 2\na_gcount 0\na_gsum 1\n# EOF\n") = some .valueError := by decide
+
+/-- the hypothesis of the two theorems above — every timestamp in the list equals itself — holds outright for absent
+and `Timestamp` timestamps, and for float timestamps whenever `==` is reflexive on them (`_parse_timestamp` never
+returns NaN) -/
+example : ∀ t : Option OTs, (match t with | some (.flt b) => toyP.eq (.flt b) (.flt b) = true | _ => True) → tsEq toyP t t = true := by
+  intro t h
+  cases t with
+  | none => rfl
+  | some x => cases x with
+    | stamp a b => simp [tsEq]
+    | flt b => exact h
 
 end PromVerif.Props.C15
